@@ -6,6 +6,9 @@
 (* in-memory task table, taken after the request.  The acceptor keeps the previous digests and         *)
 (* requires the contract of HttpApi.tla; which of 200 / 400 / 500 a POST gets is left open except      *)
 (* that the semantically invalid creates named by the statement must not get 200.                      *)
+(* `addr` of an event is the shape of the target address the request was built with (HttpApi.tla       *)
+(* AllShapes, "" = none of the plan's choosing); the driver marks a create with an empty address       *)
+(* must_reject; for every other shape only Total and RejectIsNoop apply (outcome of the probe is open).*)
 (* Known findings (env KF_<name>): C19_DOT_NAME_PANIC, C19_RPCPOS_ORPHAN_CKPT, C19_NONUTF8_LABEL_PANIC. *)
 EXTENDS HttpApi, IOUtils, SequencesExt
 
